@@ -187,7 +187,7 @@ func (vc *VC) call(fr *Frame, instr ssa.Instruction, c *ssa.CallCommon, st *Stat
 		}
 		vc.opaque["call through function value "+c.Value.Name()+" in "+fr.fn.Name()+" (results arbitrary; heap havoc)"] = true
 		vc.havocAll(st)
-		return vc.freshResult(st, resType, "dyncall")
+		return zeroOffsets(vc.freshResult(st, resType, "dyncall"))
 	}
 	if r, ok := vc.intrinsic(fr, instr, callee, args, st); ok {
 		return r
@@ -236,7 +236,7 @@ func (vc *VC) call(fr *Frame, instr ssa.Instruction, c *ssa.CallCommon, st *Stat
 	vc.opaque[vc.eng.qualName(callee)] = true
 	ms := vc.eng.modsetOf(target)
 	vc.havocModset(st, ms)
-	return vc.freshResult(st, resType, name)
+	return zeroOffsets(vc.freshResult(st, resType, name))
 }
 
 func ifaceMethodName(t types.Type, m string) string {
@@ -1343,9 +1343,22 @@ func (vc *VC) loopHead(fr *Frame, li *loopInfo, st *State, phis []*ssa.Phi, entr
 	if _, ok := mods[vc.nextComp()]; ok {
 		vc.assume(head, fmt.Sprintf("(>= %s %s)", vc.get(head, vc.nextComp()), entryNext))
 	}
+	// event counters only grow
+	for _, k := range keys {
+		if strings.HasPrefix(k, "ev.") {
+			vc.assume(head, fmt.Sprintf("(>= %s %s)", vc.get(head, k), vc.get(st, k)))
+		}
+	}
 	for _, ph := range phis {
 		v := vc.freshVal(head, ph.Type(), "loop."+ph.Name())
-		// keep closure identity for function-typed phis (not expected)
+		// a loop-carried slice that enters at offset 0 stays at offset 0 (checked on every back edge)
+		if ev, ok := entryPhi[ph]; ok && v.Sl != nil && ev.Sl != nil && ev.Sl.Off == "0" {
+			v.Sl.Off = "0"
+			if li.zeroOff == nil {
+				li.zeroOff = map[*ssa.Phi]bool{}
+			}
+			li.zeroOff[ph] = true
+		}
 		fr.env[ph] = v
 	}
 	// 3. automatic range-index facts
@@ -1408,6 +1421,16 @@ func (vc *VC) loopBackEdge(fr *Frame, li *loopInfo, from *ssa.BasicBlock, ex *bl
 	var ls *LoopSpec
 	if fr.spec != nil {
 		ls = fr.spec.Loops[li.ord]
+	}
+	// loop-carried slices assumed to stay at offset 0 must come back at (literal) offset 0
+	for ph := range li.zeroOff {
+		for i, p := range li.header.Preds {
+			if p == from {
+				if v := vc.operand(fr, ph.Edges[i]); v.Sl == nil || v.Sl.Off != "0" {
+					vc.fatalf("loop-carried slice %s does not stay at offset 0", ph.Comment)
+				}
+			}
+		}
 	}
 	if ls == nil || len(ls.Invariants) == 0 {
 		return
